@@ -96,8 +96,39 @@ Proof. intros A f l1 l2 H. rewrite forallb_app in H. apply andb_true_iff in H. e
 Lemma is_nil_true : forall {A} (l : list A), is_nil l = true -> l = [].
 Proof. intros A [|x l] H; [reflexivity|discriminate]. Qed.
 
-Lemma nil_or_not_in : forall rs x, is_nil rs || negb (in_ranges rs x) = negb (in_ranges rs x).
-Proof. intros [|r rs] x; reflexivity. Qed.
+Section Ports.
+Variables (kv : kvariant) (v : ipver) (tbl : sets_table).
+Hypothesis Hstore : store_in_fragment kv v tbl = true.
+Let s := ref_sets v tbl.
+
+Lemma named_hit_ref : forall named a pr po,
+  forallb (set_present tbl) named = true -> (kv_named kv || is_nil named) = true ->
+  chk_named_hit kv tbl named a pr po = existsb (fun id => s id (MemIPPort a pr po)) named.
+Proof.
+  intros named a pr po Hp Hk. unfold chk_named_hit.
+  destruct named as [|id0 rest] eqn:En; [apply andb_false_r|]. rewrite <- En in *.
+  assert (Hkv : kv_named kv = true) by (rewrite En in Hk; simpl in Hk; rewrite orb_false_r in Hk; exact Hk).
+  rewrite Hkv. simpl andb. apply C11.ProofsSets.existsb_ext_in. intros id Hin.
+  rewrite forallb_forall in Hp. specialize (Hp id Hin). unfold set_present in Hp.
+  destruct (assoc id tbl) as [ens|] eqn:E; [|discriminate].
+  exact (has_ipport_ref kv v tbl Hstore id ens a pr po E).
+Qed.
+
+Lemma ports_pos_ref : forall ranges named a pr po,
+  forallb (set_present tbl) named = true -> (kv_named kv || is_nil named) = true ->
+  chk_ports_pos kv tbl ranges named a pr po = ports_ok s ranges named po (MemIPPort a pr po).
+Proof.
+  intros. unfold chk_ports_pos, ports_ok, ports_hit. rewrite named_hit_ref by assumption. rewrite orb_assoc. reflexivity.
+Qed.
+
+Lemma ports_neg_ref : forall ranges named a pr po,
+  forallb (set_present tbl) named = true -> (kv_named kv || is_nil named) = true ->
+  chk_ports_neg kv tbl ranges named a pr po = negb (ports_hit s ranges named po (MemIPPort a pr po)).
+Proof.
+  intros ranges named a pr po H1 H2. unfold chk_ports_neg, ports_hit. rewrite named_hit_ref by assumption.
+  destruct ranges as [|r0 rs]; [|reflexivity]. destruct named as [|n0 ns]; reflexivity.
+Qed.
+End Ports.
 
 Lemma rule_match_ref : forall kv v tbl r p,
   store_in_fragment kv v tbl = true -> rule_in_fragment kv v tbl r = true ->
@@ -106,33 +137,41 @@ Lemma rule_match_ref : forall kv v tbl r p,
 Proof.
   intros kv v tbl r p Hst Hr Hp Hv.
   unfold rule_in_fragment in Hr. repeat rewrite andb_true_iff in Hr.
-  destruct Hr as [[[[[[[[Hic Hn1] Hn2] Hn3] Hn4] Hiv] Hf1] Hf2] Hs].
+  destruct Hr as [[[[[Hic Hnamed] Hiv] Hf1] Hf2] Hs].
   destruct (r_icmp r) eqn:Ei; [discriminate|]. destruct (r_not_icmp r) eqn:Eni; [discriminate|].
-  apply is_nil_true in Hn1, Hn2, Hn3, Hn4.
+  assert (Hn : (kv_named kv || is_nil (r_src_named_ports r)) = true /\ (kv_named kv || is_nil (r_dst_named_ports r)) = true
+               /\ (kv_named kv || is_nil (r_not_src_named_ports r)) = true /\ (kv_named kv || is_nil (r_not_dst_named_ports r)) = true).
+  { destruct (kv_named kv); [repeat split; reflexivity|]. simpl in Hnamed. repeat rewrite andb_true_iff in Hnamed.
+    simpl. tauto. }
+  destruct Hn as (Hn1 & Hn2 & Hn3 & Hn4).
   unfold rule_sets in Hs.
   apply forallb_app_true in Hs. destruct Hs as [Hs1 Hs]. apply forallb_app_true in Hs. destruct Hs as [Hs2 Hs].
-  apply forallb_app_true in Hs. destruct Hs as [Hs3 Hs]. apply forallb_app_true in Hs. destruct Hs as [Hs4 Hs5].
+  apply forallb_app_true in Hs. destruct Hs as [Hs3 Hs]. apply forallb_app_true in Hs. destruct Hs as [Hs4 Hs].
+  apply forallb_app_true in Hs. destruct Hs as [Hs5 Hs]. apply forallb_app_true in Hs. destruct Hs as [Hs6 Hs].
+  apply forallb_app_true in Hs. destruct Hs as [Hs7 Hs]. apply forallb_app_true in Hs. destruct Hs as [Hs8 Hs9].
   unfold chk_match, rule_matches. rewrite Hv.
   rewrite (sets_all_ref v tbl _ _ (src_member p) Hs1) by (intros; apply (has_ip_ref kv v tbl Hst); assumption).
   rewrite (sets_all_ref v tbl _ _ (dst_member p) Hs2) by (intros; apply (has_ip_ref kv v tbl Hst); assumption).
   rewrite (sets_none_ref v tbl _ _ (src_member p) Hs3) by (intros; apply (has_ip_ref kv v tbl Hst); assumption).
   rewrite (sets_none_ref v tbl _ _ (dst_member p) Hs4) by (intros; apply (has_ip_ref kv v tbl Hst); assumption).
   rewrite (sets_all_ref v tbl _ _ (dst_port_member p) Hs5) by (intros; apply (has_ipport_ref kv v tbl Hst); assumption).
-  unfold rule_version_ok, ports_ok, ports_hit, chk_ports_pos, chk_ports_neg, chk_nets_pos, chk_nets_neg, chk_proto, chk_ipver.
-  rewrite Ei, Eni, Hn1, Hn2, Hn3, Hn4, Hf1, Hf2. simpl opt_ok. simpl existsb. simpl (is_nil []).
+  rewrite (ports_pos_ref kv v tbl Hst _ _ _ _ _ Hs6 Hn1), (ports_pos_ref kv v tbl Hst _ _ _ _ _ Hs7 Hn2).
+  rewrite (ports_neg_ref kv v tbl Hst _ _ _ _ _ Hs8 Hn3), (ports_neg_ref kv v tbl Hst _ _ _ _ _ Hs9 Hn4).
+  unfold rule_version_ok, chk_nets_pos, chk_nets_neg, chk_proto, chk_ipver, src_port_member, dst_port_member.
+  rewrite Ei, Eni, Hf1, Hf2. simpl opt_ok.
   unfold packet_in_fragment in Hp. rewrite Hp.
   fold (nets_ok (r_src_nets r) v (pk_src p)). fold (nets_ok (r_dst_nets r) v (pk_dst p)).
   assert (Hipv : (if kv_ipver kv then opt_ok (r_ipver r) (ipver_eqb v) else true) = opt_ok (r_ipver r) (ipver_eqb v)).
   { destruct (kv_ipver kv); [reflexivity|]. simpl in Hiv. destruct (r_ipver r); [discriminate|reflexivity]. }
   rewrite Hipv.
   rewrite <- (fhv_nets_ok (r_src_nets r) v (pk_src p)), <- (fhv_nets_ok (r_dst_nets r) v (pk_dst p)).
-  rewrite !orb_false_r, !andb_true_r, !nil_or_not_in.
+  rewrite !andb_true_r.
   (* both sides are conjunctions of the same atoms *)
   generalize (forallb (fun id => ref_sets v tbl id (src_member p)) (r_src_ipsets r)).
   generalize (forallb (fun id => ref_sets v tbl id (dst_member p)) (r_dst_ipsets r)).
   generalize (existsb (fun id => ref_sets v tbl id (src_member p)) (r_not_src_ipsets r)).
   generalize (existsb (fun id => ref_sets v tbl id (dst_member p)) (r_not_dst_ipsets r)).
-  generalize (forallb (fun id => ref_sets v tbl id (dst_port_member p)) (r_dst_ipport_sets r)).
+  generalize (forallb (fun id => ref_sets v tbl id (MemIPPort (pk_dst p) (pk_proto p) (pk_dport p))) (r_dst_ipport_sets r)).
   generalize (opt_ok (r_ipver r) (ipver_eqb v)).
   generalize (field_has_version (r_src_nets r) v) (field_has_version (r_dst_nets r) v).
   generalize (nets_ok (r_src_nets r) v (pk_src p)) (nets_ok (r_dst_nets r) v (pk_dst p)).
@@ -140,9 +179,9 @@ Proof.
   generalize (existsb (fun c => in_cidr c v (pk_dst p)) (r_not_dst_nets r)).
   generalize (opt_ok (r_proto r) (N.eqb (pk_proto p))).
   generalize (opt_ok (r_not_proto r) (fun n => negb (N.eqb (pk_proto p) n))).
-  generalize (is_nil (r_src_ports r)) (in_ranges (r_src_ports r) (pk_sport p)).
-  generalize (is_nil (r_dst_ports r)) (in_ranges (r_dst_ports r) (pk_dport p)).
-  generalize (in_ranges (r_not_src_ports r) (pk_sport p)).
-  generalize (in_ranges (r_not_dst_ports r) (pk_dport p)).
+  generalize (ports_ok (ref_sets v tbl) (r_src_ports r) (r_src_named_ports r) (pk_sport p) (MemIPPort (pk_src p) (pk_proto p) (pk_sport p))).
+  generalize (ports_ok (ref_sets v tbl) (r_dst_ports r) (r_dst_named_ports r) (pk_dport p) (MemIPPort (pk_dst p) (pk_proto p) (pk_dport p))).
+  generalize (ports_hit (ref_sets v tbl) (r_not_src_ports r) (r_not_src_named_ports r) (pk_sport p) (MemIPPort (pk_src p) (pk_proto p) (pk_sport p))).
+  generalize (ports_hit (ref_sets v tbl) (r_not_dst_ports r) (r_not_dst_named_ports r) (pk_dport p) (MemIPPort (pk_dst p) (pk_proto p) (pk_dport p))).
   intros. btauto.
 Qed.
